@@ -1,7 +1,7 @@
 (** Correspondence record for C16: one case = the config levels, prefix,
     environment, and what the implementation did (the env level it computed and
     the deep view afterwards). *)
-From InvokeVerif Require Export Model.EnvModel Spec.C16Spec.
+From InvokeVerif Require Export Model.EnvModel Model.EnvSubModel Spec.C16Spec.
 
 Record case := mk { c_tree : tree;            (* defaults level *)
                     c_more : list tree;      (* [collection] or [collection; overrides] *)
@@ -9,7 +9,10 @@ Record case := mk { c_tree : tree;            (* defaults level *)
                     c_dels : tree;           (* runtime deletions (a nested dict with None leaves) *)
                     c_pfx : string; c_env : list (string * string);
                     c_obs : result tree;     (* the env level computed by load_shell_env, or the error *)
-                    c_view : option tree }.  (* deep view of the config afterwards (when it did not fail) *)
+                    c_view : option tree;    (* deep view of the config afterwards (when it did not fail) *)
+                    c_sub : list (path * subkind) }.
+                    (* the settings of the merged configuration whose value is an instance of a SUBCLASS of
+                       list/tuple/int/str (the trees above carry the base value it compares equal to) *)
 
 Definition merge_levels (ls : list tree) : result dict :=
   fold_left (fun acc lvl => bind acc (fun d => merge_dicts d lvl)) ls (Ok []).
@@ -36,6 +39,14 @@ Definition model_env (c : case) : result tree :=
   | Ok t => match load t (effective_prefix (c_pfx c)) (c_env c) with Ok d => Ok (Node d) | Err e => Err e end
   end.
 
+(** the same with the classes of the values taken into account ([load_py]); equal to [model_env]
+    unless a setting is an IntEnum member (Proofs/C16_sub.v, [load_py_projection]) *)
+Definition model_env_py (c : case) : result tree :=
+  match pre c with
+  | Err e => Err e
+  | Ok t => match load_py t (c_sub c) (effective_prefix (c_pfx c)) (c_env c) with Ok d => Ok (Node d) | Err e => Err e end
+  end.
+
 (** Config.merge order: defaults, collection, (files), env, (runtime), overrides, modifications; deletions last *)
 Definition model_view (c : case) : option tree :=
   match model_env c with
@@ -48,7 +59,7 @@ Definition model_view (c : case) : option tree :=
   end.
 
 Definition corr (c : case) : bool :=
-  res_equiv (model_env c) (c_obs c) &&
+  res_equiv (model_env_py c) (c_obs c) &&
   match c_view c, model_view c with
   | Some v, Some m => dict_equiv v m && dict_equiv m v
   | None, _ => true
